@@ -75,6 +75,10 @@ fn main() {
         "C16N" => c16::run_nesting(shard),
         "C19" => c19::run(seed, &tier, shard, nshards),
         "C20" => c20::run(seed, &tier, shard),
+        "C20S" => {
+            report::init("C20", &tier, seed, shard, &out);
+            c20s::run(seed, &tier, shard)
+        }
         "C01" | "C02" | "C08" => e1::run(&check, seed, &tier, shard, atom.as_deref()),
         "C10" | "C11" => c10::run(&check, seed, &tier, shard, atom.as_deref()),
         "C10W" => {
